@@ -78,10 +78,11 @@ def fits(itv, ty):
 # ------------------------------------------------------------------------------------------------
 class V:
     """abstract value"""
-    __slots__ = ("const", "sym", "ty", "ref_to", "len", "cond", "discr_of", "rng", "lazy", "is_mut", "negof")
+    __slots__ = ("const", "sym", "ty", "ref_to", "len", "cond", "discr_of", "rng", "lazy", "is_mut", "negof", "tbl")
 
-    def __init__(self, ty=None, const=None, sym=None, ref_to=None, len=None, cond=None, discr_of=None, rng=None, lazy=None, is_mut=False, negof=None):
+    def __init__(self, ty=None, const=None, sym=None, ref_to=None, len=None, cond=None, discr_of=None, rng=None, lazy=None, is_mut=False, negof=None, tbl=None):
         self.negof = negof      # term t such that value == -t
+        self.tbl = tbl          # def path of the literal const table this array value is a copy of
         self.ty = ty
         self.const = const      # exact integer
         self.sym = sym          # (sid, offset)
@@ -94,7 +95,7 @@ class V:
         self.is_mut = is_mut
 
     def key(self):
-        return (self.const, self.sym, self.ref_to, self.len, self.cond, self.discr_of, self.rng, self.lazy, self.negof)
+        return (self.const, self.sym, self.ref_to, self.len, self.cond, self.discr_of, self.rng, self.lazy, self.negof, self.tbl)
 
     def __eq__(self, o):
         return isinstance(o, V) and self.key() == o.key()
@@ -413,9 +414,12 @@ def join_states(states, bb, body):
             terms.append(t_)
             if t_ is not None and t_[0] == "s":
                 cands |= {h + t_[2] for h in s.holes.get(t_[1], ())}
+        lo, hi = out.syms.get(v.sym[0], (-INF, INF))
+        if lo != -INF and hi != INF and 1 < hi - lo <= 32:
+            # a small hull (join of a few constants, `1 | 3 | 4`): every value inside it is a candidate
+            cands |= set(range(lo + 1, hi))
         if cands and all(t_ is not None for t_ in terms):
             hs = frozenset(c for c in cands if all(s.excluded(t_, c) for s, t_ in zip(states, terms)))
-            lo, hi = out.syms.get(v.sym[0], (-INF, INF))
             hs = frozenset(c for c in hs if lo <= c <= hi)
             if hs:
                 out.holes[v.sym[0]] = hs
@@ -673,6 +677,17 @@ class Analyzer:
                 v.ref_to = "const:" + c["def"]
             if c.get("def") and c["def"] in (getattr(self.prog, "const_lens", None) or {}):
                 v.len = ("c", self.prog.const_lens[c["def"]])
+            if c.get("def") and not ty.startswith("&") and c["def"] in (getattr(self.prog, "const_vals", None) or {}):
+                v.tbl = c["def"]
+            if c.get("promoted") and ty.startswith("&") and v.ref_to is None:
+                # `&TABLE` promoted to a constant: the promoted body is `_1 = const TABLE; _0 = &_1`
+                from .flow import _promoted_index, promoted_aggs
+                rvs = promoted_aggs(self.body, _promoted_index(c))
+                if len(rvs) == 1 and rvs[0]["k"] == "const" and rvs[0]["c"].get("def") in (getattr(self.prog, "const_ranges", None) or {}) \
+                        and not (rvs[0]["c"].get("ty") or "").startswith("&"):
+                    v.ref_to = "const:" + rvs[0]["c"]["def"]
+                    if rvs[0]["c"]["def"] in (getattr(self.prog, "const_lens", None) or {}):
+                        v.len = ("c", self.prog.const_lens[rvs[0]["c"]["def"]])
             if "bytes" in c:
                 v.len = ("c", len(c["bytes"]))
             m = re.match(r"^&?(mut )?\[.*; (\d+)\]$", ty or "")
@@ -818,7 +833,7 @@ class Analyzer:
                 if a.const is not None:
                     v.const = 0 if a.const else 1
                 if a.cond is not None:
-                    neg = {"Lt": "Ge", "Le": "Gt", "Gt": "Le", "Ge": "Lt", "Eq": "Ne", "Ne": "Eq", "And": "Nand", "Nand": "And",
+                    neg = {"Lt": "Ge", "Le": "Gt", "Gt": "Le", "Ge": "Lt", "Eq": "Ne", "Ne": "Eq", "And": "Nand", "Nand": "And", "In": "NotIn", "NotIn": "In",
                            "SLt": "SGe", "SLe": "SGt", "SGt": "SLe", "SGe": "SLt", "SEq": "SNe", "SNe": "SEq"}
                     o0 = a.cond[0]
                     if o0.startswith("T:"):
@@ -943,7 +958,7 @@ class Analyzer:
         self.write_place(st, place, self.ensure_sym(st, self.top_for(dty, sid), sid))
 
     def decide(self, st, op, ta, tb):
-        if op in ("And", "Nand") or op.startswith(("T:", "F:", "S")):
+        if op in ("And", "Nand", "In", "NotIn") or op.startswith(("T:", "F:", "S")):
             return None
         if op == "Lt":
             if st.le(ta, tb, True):
@@ -1041,6 +1056,11 @@ class Analyzer:
                 v.const = a.const * b.const
                 return v
             it = imul(ia, ib)
+            # x * c with c >= 1 and x >= 0 is at least x
+            for p_, q_ in ((a, b), (b, a)):
+                tp = st.term(p_)
+                if q_.const is not None and q_.const >= 1 and tp is not None and tp[0] == "s" and st.itv_term(tp)[0] >= 0 and tp[1] != sid:
+                    st.diffs[(tp[1], sid)] = min(st.diffs.get((tp[1], sid), INF), -tp[2])
             # (x / y) * y  -> in [0, x]
             for p, q in ((a, b), (b, a)):
                 if p.lazy is not None and p.lazy[0] == "div" and st.term(q) == p.lazy[2]:
@@ -1104,17 +1124,40 @@ class Analyzer:
         return v
 
     # ---- edges ------------------------------------------------------------------------------------------
+    def _sum_diff_conj(self, st, *conds):
+        """after a conjunction was assumed: a bound on x + y together with a bound on x - y bounds each of them
+        (`-size <= i && i < size` gives 2*size >= 1, i.e. the range is non-empty only for size >= 1)"""
+        def half_up(n):      # ceil(n / 2)
+            return -((-n) // 2)
+        for c in conds:
+            if not (isinstance(c, tuple) and len(c) == 3 and isinstance(c[0], str) and c[0].startswith("S") and c[0][1:] in ("Lt", "Le", "Gt", "Ge", "Eq")):
+                continue
+            x, y = c[1][1], c[2][1]
+            if x == y or st.dead:
+                continue
+            lo, hi = st.sum_bound(x, y)
+            for p, q in ((x, y), (y, x)):
+                d = st.diffs.get((p, q))          # p - q <= d
+                if d is None:
+                    continue
+                if lo != -INF:                    # p + q >= lo  =>  2q >= lo - d
+                    st.assume_le(("c", half_up(lo - d)), ("s", q, 0))
+                if hi != INF:                     # p + q <= hi  =>  2p <= hi + d
+                    st.assume_le(("s", p, 0), ("c", (hi + d) // 2))
+
     def refine_cond(self, st, cond, truth):
         op, a, b = cond
         if op == "And":      # a, b are conditions
             if truth:
                 self.refine_cond(st, a, True)
                 self.refine_cond(st, b, True)
+                self._sum_diff_conj(st, a, b)
             return
         if op == "Nand":
             if not truth:
                 self.refine_cond(st, a, True)
                 self.refine_cond(st, b, True)
+                self._sum_diff_conj(st, a, b)
             return
         if op.startswith("S") and op[1:] in ("Lt", "Le", "Gt", "Ge", "Eq", "Ne"):
             o2 = op[1:]
@@ -1131,6 +1174,21 @@ class Analyzer:
                 st.refine_sum(a[1], b[1], (-off, INF))
             elif o2 == "Eq":
                 st.refine_sum(a[1], b[1], (-off, -off))
+            return
+        if op in ("In", "NotIn"):    # membership of term a in the finite integer set b
+            if (op == "In") == bool(truth):
+                vals = sorted(b)
+                st.assume_le(("c", vals[0]), a)
+                st.assume_le(a, ("c", vals[-1]))
+                if vals[-1] - vals[0] <= 64:
+                    for n in range(vals[0] + 1, vals[-1]):
+                        if n not in b:
+                            st.assume_ne(a, ("c", n))
+            else:
+                for n in sorted(b):
+                    st.assume_ne(a, ("c", n))
+                for n in sorted(b, reverse=True):
+                    st.assume_ne(a, ("c", n))
             return
         if op.startswith("T:"):      # holds only when the bool is true
             if truth:
@@ -1301,7 +1359,7 @@ class Analyzer:
             t = blk["term"]
             outs = self.transfer_term(st, t, bb)
             produced = set()
-            for tgt, s2 in outs:
+            for oi, (tgt, s2) in enumerate(outs):
                 if body.blocks[tgt]["cleanup"]:
                     continue
                 # jump threading: a statement-free block that only switches on a local whose value is a constant in this
@@ -1323,7 +1381,7 @@ class Analyzer:
                     self.threaded.add(tgt)
                     via = via + (tgt,)
                     tgt, s2 = nxt[0]
-                key = (bb, tgt, via)
+                key = (bb, tgt, via, oi)      # several values of one switch may share a target (`1 | 3 | 4 =>`): each edge keeps its own state
                 produced.add(key)
                 edge_out[key] = s2
                 new_in = join_states([es for ek, es in edge_out.items() if ek[1] == tgt], tgt, body)
